@@ -35,6 +35,32 @@ def single_tail_rule(F, rep):
     return blk
 
 
+def branch_contexts(root):
+    """id(node) -> tuple of (id(branch node), arm label) for the enclosing If/Match branches below root (conditions/scrutinees belong to the outer context)"""
+    out = {}
+
+    def go(n, ctx):
+        out[id(n)] = ctx
+        k = n.get("k")
+        if k == "If":
+            go(n["cond"], ctx)
+            go(n["then"], ctx + ((id(n), "then"),))
+            if n.get("else"):
+                go(n["else"], ctx + ((id(n), "else"),))
+            return
+        if k == "Match":
+            go(n["scrut"], ctx)
+            for i, a in enumerate(n["arms"]):
+                if a.get("guard"):
+                    go(a["guard"], ctx + ((id(n), i),))
+                go(a["body"], ctx + ((id(n), i),))
+            return
+        for c in tir.children(n):
+            go(c, ctx)
+    go(root, ())
+    return out
+
+
 def advance_rule(F, rep, blk):
     env = {}
     skipname = None
@@ -70,6 +96,26 @@ def advance_rule(F, rep, blk):
         if x.get("k") == "AssignOp" and tir.place(x["l"]) == "state.bytes_read":
             uses["count"] = form(x["r"])
     ok = uses["copy"] is not None and uses["copy"] == uses["seek"] == uses["count"]
+    # every path that moves the stream also moves the counter: the counter update may not sit in a narrower branch than an advance
+    ctxs = branch_contexts(blk["then"])
+    adv, cnt = [], []
+    for x in tir.walk(blk["then"]):
+        if x.get("k") == "MethodCall" and x["method"] == "take" and (declared(x) or "").endswith("Read::take"):
+            adv.append(("copy", x))
+        if x.get("k") == "Call" and (declared(x) or "").endswith("SeekFrom::Current"):
+            adv.append(("seek", x))
+        if x.get("k") == "AssignOp" and tir.place(x["l"]) == "state.bytes_read":
+            cnt.append(x)
+            if form(x["r"]) != uses["count"]:
+                ok = False
+    for nm, a in adv:
+        ca = ctxs.get(id(a), ())
+        covered = [c for c in cnt if ctxs.get(id(c), ()) == ca[:len(ctxs.get(id(c), ()))]]
+        rep.ob("advance.counted", len(covered) == 1, READ, nm, "the %s advance at %s is followed by %d byte-counter updates on its path (want exactly 1): bytes_read would disagree with the stream position" % (
+            nm, tir.sp(a), len(covered)), tir.sp(a))
+    for c in cnt:
+        cc = ctxs.get(id(c), ())
+        rep.ob("advance.counted", any(ctxs.get(id(a), ())[:len(cc)] == cc for _, a in adv), READ, "count", "a byte-counter update at %s is on a path without a stream advance" % tir.sp(c), tir.sp(c))
     rep.ob("advance.same-value", ok, READ, "skip", "the hashing branch, the seeking branch and the byte counter must advance by the same value: %s" % uses, sample={"uses": uses})
     want = None
     if uses["count"] in env:
